@@ -154,6 +154,9 @@ class Channel(object):
         self.log = []
         self.listening = None      # LocalTarget while TargetEnd.listen() runs
         self.stale_dropped = 0
+        # what each side's receiver experienced last:
+        # ('rx', Frame) | ('crc', Frame) | ('timeout', None)
+        self.last = {'I': None, 'T': None}
         self.initiator = InitiatorEnd(self)
         self.target = TargetEnd(self)
 
@@ -164,9 +167,7 @@ class Channel(object):
         self.log.append(fr)
         n = 3 if self.fate_n is None else self.fate_n(fr)
         fr.fate = self.chooser.env(n, fr.label)
-        if fr.fate == DELIVER:
-            self.inbox[fr.dst].append(fr)
-        elif fr.fate == CORRUPT:
+        if fr.fate != LOSE:
             self.inbox[fr.dst].append(fr)
         return fr
 
@@ -182,6 +183,7 @@ class Channel(object):
         q = self.inbox[me]
         if not q:
             if timeout is not None and timeout <= 0:
+                self.last[me] = ('timeout', None)
                 raise nfc.clf.TimeoutError("no data (timeout %r)" % timeout)
             s = sched.S
             if s is None or sched.cur() is None:
@@ -191,10 +193,13 @@ class Channel(object):
                     None if timeout is None else s.now + timeout,
                     'recv', me)
         if not q:
+            self.last[me] = ('timeout', None)
             raise nfc.clf.TimeoutError("no data within %r s" % timeout)
         fr = q.popleft()
         if fr.fate == CORRUPT:
+            self.last[me] = ('crc', fr)
             raise nfc.clf.TransmissionError("CRC error (frame %d)" % fr.idx)
+        self.last[me] = ('rx', fr)
         return bytearray(fr.data)
 
     def faults(self):
